@@ -191,8 +191,34 @@ static int extfull(int k, int l, int bgbit, unsigned seed, int cases) {
     fflush(stdout);
     return 0;
 }
+// ---- full size with REAL generated keys (uniform masks, configured noise): layouts up to Bgbit = 16, k = 2; the output phase under the secret key is +-mu
+// up to bootstrapping noise, according to the rounded phase of the input ----
+static int real(int n, int k, int l, int bgbit, int t, int bb, unsigned seed, int cases) {
+    const int N = 1024; uint32_t sv[2] = {seed, 0x4ea1u}; tfhe_random_generator_setSeed(sv, 2);
+    LweParams* lp = new_LweParams(n, 1e-8, 0.1); TLweParams* tp = new_TLweParams(N, k, 1e-9, 0.1); TGswParams* gp = new_TGswParams(l, bgbit, tp); const LweParams* ep = &tp->extracted_lweparams;
+    LweKey* lk = new_LweKey(lp); lweKeyGen(lk); TGswKey* tk = new_TGswKey(gp); tGswKeyGen(tk);
+    LweBootstrappingKey* bk = new_LweBootstrappingKey(t, bb, lp, gp); tfhe_createLweBootstrappingKey(bk, lk, tk); LweBootstrappingKeyFFT* bkf = new_LweBootstrappingKeyFFT(bk);
+    LweKey* xk = new_LweKey(ep); tLweExtractKey(xk, &tk->tlwe_key);
+    VhRng rng(seed); LweSample* x = new_LweSample(lp); LweSample* u = new_LweSample(ep); LweSample* r = new_LweSample(lp);
+    Torus32 mus[3] = {(Torus32)(1u << 29), (Torus32)0x12345678, (Torus32)(3u << 30)};
+    for (int c = 0; c < cases; c++) {
+        std::vector<uint32_t> a(n); int64_t acc = 0; for (int i = 0; i < n; i++) { a[i] = rng.u32(); if (lk->key[i]) acc += modSwitchFromTorus32((Torus32)a[i], 2 * N); }
+        int target = c < 8 ? (int)((int[]){0, 1, N - 1, N, N + 1, 2 * N - 1, N / 2, 3 * N / 2}[c]) : (int)rng.below(2 * N);
+        uint32_t b = ((uint32_t)(((acc + target) % (2 * N) + 2 * N) % (2 * N)) << 21) + (uint32_t)((int)rng.below(1u << 19) - (1 << 18));     // well inside the rounding interval of p = target
+        // the sample must really have that phase class: b - sum a_i s_i is what the bootstrapping rounds coefficient by coefficient, so p is defined on the rounded words (as in Table_C04F)
+        for (int i = 0; i < n; i++) x->a[i] = (Torus32)a[i]; x->b = (Torus32)b;
+        Torus32 mu = mus[c % 3]; int f = c % 4; uint32_t ph;
+        if (f == 0) { tfhe_bootstrap_woKS_FFT(u, bkf, mu, x); ph = (uint32_t)lwePhase(u, xk); } else if (f == 1) { tfhe_bootstrap_FFT(r, bkf, mu, x); ph = (uint32_t)lwePhase(r, lk); }
+        else if (f == 2) { tfhe_bootstrap_woKS(u, bk, mu, x); ph = (uint32_t)lwePhase(u, xk); } else { tfhe_bootstrap(r, bk, mu, x); ph = (uint32_t)lwePhase(r, lk); }
+        std::vector<uint32_t> asel; for (int i = 0; i < n; i++) if (lk->key[i]) asel.push_back(a[i]);
+        VH_B; vh_s("k", "real"); VH_C; vh_i("f", f); VH_C; vh_i("n", n); VH_C; vh_i("kk", k); VH_C; vh_i("l", l); VH_C; vh_i("bg", bgbit); VH_C; vh_w("mu", (uint32_t)mu); VH_C; vh_w("b", b); VH_C; wl("as", asel); VH_C; vh_w("ph", ph); VH_E;
+    }
+    fflush(stdout);
+    return 0;
+}
 int main(int argc, char** argv) {
     vh_init();
+    if (argc >= 2 && !strcmp(argv[1], "real")) return real((int)vh_arg(argc, argv, "--n", 8), (int)vh_arg(argc, argv, "--k", 1), (int)vh_arg(argc, argv, "--l", 2), (int)vh_arg(argc, argv, "--bg", 16), (int)vh_arg(argc, argv, "--t", 8), (int)vh_arg(argc, argv, "--bb", 2), (unsigned)vh_arg(argc, argv, "--seed", 1), (int)vh_arg(argc, argv, "--cases", 64));
     if (argc >= 2 && !strcmp(argv[1], "extfull")) return extfull((int)vh_arg(argc, argv, "--k", 1), (int)vh_arg(argc, argv, "--l", 2), (int)vh_arg(argc, argv, "--bg", 10), (unsigned)vh_arg(argc, argv, "--seed", 1), (int)vh_arg(argc, argv, "--cases", 24));
     if (argc >= 2 && !strcmp(argv[1], "fullseq")) return fullseq((unsigned)vh_arg(argc, argv, "--seed", 1), (int)vh_arg(argc, argv, "--cases", 512));
     if (argc >= 2 && !strcmp(argv[1], "full")) return full((int)vh_arg(argc, argv, "--n", 8), (int)vh_arg(argc, argv, "--k", 1), (int)vh_arg(argc, argv, "--l", 3), (int)vh_arg(argc, argv, "--bg", 7), (int)vh_arg(argc, argv, "--t", 8), (int)vh_arg(argc, argv, "--bb", 2), (unsigned)vh_arg(argc, argv, "--seed", 1), (int)vh_arg(argc, argv, "--cases", 6144));
